@@ -43,7 +43,7 @@ STALE     == 12
 MaxTries  == 4
 UnitMs    == 150000
 
-NoFile == [o |-> -1, t |-> 0, x |-> FALSE]
+NoFile == [o |-> -1, t |-> 0, x |-> FALSE, g |-> 0]      \* g: files are distinct even with equal time stamps
 OpStates   == {"list", "load", "create", "rmown", "rsave", "rrm", "f1", "fsave", "f2", "frm", "fclean", "unl"}
 HoldStates == {"hold", "rsave", "rrm", "f1", "fsave", "fsleep", "f2", "frm", "fclean", "stuck"}
 FStates    == {"f1", "fsave", "fsleep", "f2", "frm", "fclean"}
@@ -53,16 +53,16 @@ Local(p) == now + pr[p].skew
 
 InitProc(s) == [pc |-> "idle", x |-> FALSE, mine |-> NoFile, repl |-> NoFile, listed |-> {}, checked |-> {},
                 tries |-> 0, att |-> 0, phase |-> 1, ctx |-> FALSE, lastRef |-> 0, monRef |-> 0, nextRef |-> 0,
-                forcing |-> FALSE, skew |-> s, down |-> {}, since |-> 0, used |-> 0, robbed |-> FALSE, ts |-> 0]
+                forcing |-> FALSE, skew |-> s, down |-> {}, since |-> 0, used |-> 0, robbed |-> FALSE, ts |-> 0, newest |-> 0, gen |-> 0]
 
 Init ==
   /\ now = 0
-  /\ \E R \in Remotes : files = R          \* lock files of holders on other hosts: [o |-> 0, t, x]
+  /\ \E R \in Remotes : files = R          \* lock files of holders on other hosts: [o |-> 0, t, x, g]
   /\ pr = [p \in Procs |-> InitProc(0)]       \* only clock differences matter: the processes define the reference,
   /\ skewU \in (0 - MaxSkew)..MaxSkew         \* the observer (third party, remote judge) is off by skewU
   /\ toggles = 0
   /\ waits = 0
-  /\ hist = <<>>
+  /\ hist = IF Emit THEN [k \in 1..Cardinality(files) |-> [op |-> "remote", p |-> 0, x |-> (CHOOSE f \in files : TRUE).x, k |-> ""]] ELSE <<>>
   /\ emitted = FALSE
 
 \* forget what cannot matter any more (keeps the state space small)
@@ -72,6 +72,9 @@ Norm(r) ==
        IN  IF r1.pc \in HoldStates \cup {"unl"}
            THEN [r1 EXCEPT !.tries = 0, !.att = 0, !.phase = 1, !.checked = {}, !.listed = {}]
            ELSE [r1 EXCEPT !.lastRef = 0, !.monRef = 0, !.nextRef = 0]
+
+\* schedule generation (simulation mode): environment actions are taken less often than protocol steps
+Rare(n) == ~Emit \/ RandomElement(1..n) = 1
 
 H(op, p, x, k) == [op |-> op, p |-> p, x |-> x, k |-> k]
 Rec(h) == hist' = IF Emit THEN Append(hist, h) ELSE hist
@@ -90,6 +93,8 @@ Ret(r) == IF ~r.ctx THEN "unl" ELSE IF r.forcing THEN "f1" ELSE "hold"
 
 ---------------------------------------------------------------------------
 (* acquiring: check - create - wait - check again *)
+
+NewFile(p) == [o |-> p, t |-> pr[p].ts, x |-> pr[p].x, g |-> pr[p].gen + 1]
 
 Start(p, x) ==
   /\ pr[p].pc = "idle" /\ now <= StartBy
@@ -134,9 +139,9 @@ Create(p) ==
   LET r == pr[p] IN
   /\ r.pc = "create"
   /\ IF "Save" \in r.down THEN Move(p, [r EXCEPT !.pc = "failed"], StepH(p)) /\ UNCHANGED files
-     ELSE LET f == [o |-> p, t |-> r.ts, x |-> r.x] IN
+     ELSE LET f == NewFile(p) IN
           /\ files' = files \cup {f}
-          /\ Move(p, [r EXCEPT !.pc = "sleep", !.mine = f], StepH(p))
+          /\ Move(p, [r EXCEPT !.pc = "sleep", !.mine = f, !.newest = r.ts, !.gen = @ + 1], StepH(p))
 
 \* conflict in the second check: remove the own lock file, then (maybe) try again
 RmOwn(p) ==
@@ -160,7 +165,6 @@ Again(p) ==
 ---------------------------------------------------------------------------
 (* holding: regular refresh = create the replacement, then remove the old file *)
 
-NewFile(p) == [o |-> p, t |-> pr[p].ts, x |-> pr[p].x]
 
 RSave(p) ==
   LET r == pr[p] IN
@@ -169,10 +173,10 @@ RSave(p) ==
      THEN \* the old file is already gone
           IF "Save" \in r.down THEN Move(p, [r EXCEPT !.pc = Ret(r)], StepH(p)) /\ UNCHANGED files
           ELSE /\ files' = files \cup {NewFile(p)}
-               /\ Move(p, [r EXCEPT !.mine = NewFile(p), !.lastRef = r.ts, !.monRef = Local(p), !.pc = Ret(r)], StepH(p))
+               /\ Move(p, [r EXCEPT !.mine = NewFile(p), !.gen = @ + 1, !.newest = r.ts, !.lastRef = r.ts, !.monRef = Local(p), !.pc = Ret(r)], StepH(p))
      ELSE IF "Save" \in r.down THEN Move(p, [r EXCEPT !.pc = Ret(r)], StepH(p)) /\ UNCHANGED files
           ELSE /\ files' = files \cup {NewFile(p)}
-               /\ Move(p, [r EXCEPT !.repl = NewFile(p), !.pc = "rrm"], StepH(p))
+               /\ Move(p, [r EXCEPT !.repl = NewFile(p), !.gen = @ + 1, !.newest = r.ts, !.pc = "rrm"], StepH(p))
 
 RRm(p) ==
   LET r == pr[p] IN
@@ -207,7 +211,7 @@ FSave(p) ==
   /\ r.pc = "fsave"
   /\ IF ~r.ctx \/ "Save" \in r.down THEN Move(p, FFail(r), StepH(p)) /\ UNCHANGED files
      ELSE /\ files' = files \cup {NewFile(p)}
-          /\ Move(p, [r EXCEPT !.repl = NewFile(p), !.pc = "fsleep"], StepH(p))
+          /\ Move(p, [r EXCEPT !.repl = NewFile(p), !.gen = @ + 1, !.newest = r.ts, !.pc = "fsleep"], StepH(p))
 
 F2(p) ==
   LET r == pr[p] IN
@@ -240,13 +244,13 @@ Unl(p) ==
 
 Unlock(p) ==
   LET r == pr[p] IN
-  /\ r.pc \in {"hold", "stuck", "rrm"} /\ r.ctx
+  /\ r.pc \in {"hold", "stuck", "rrm"} /\ r.ctx /\ Rare(8)
   /\ UNCHANGED files
   /\ Move(p, [r EXCEPT !.ctx = FALSE, !.forcing = FALSE, !.pc = IF r.pc \in {"hold", "stuck"} THEN "unl" ELSE r.pc],
           H("unlock", p, FALSE, ""))
 
 Crash(p) ==
-  /\ Crashes
+  /\ Crashes /\ Rare(16)
   /\ pr[p].pc \in {"sleep", "hold", "rrm", "list"}     \* with 0, 1 or 2 lock files left behind
   /\ UNCHANGED files
   /\ Move(p, [pr[p] EXCEPT !.pc = "dead", !.ctx = FALSE], H("crash", p, FALSE, ""))
@@ -255,14 +259,14 @@ Crash(p) ==
 (* environment *)
 
 Fail(p, k) ==
-  /\ toggles < MaxToggle /\ k \in Faults /\ pr[p].down = {} /\ pr[p].pc \notin Terminal
+  /\ toggles < MaxToggle /\ k \in Faults /\ pr[p].down = {} /\ pr[p].pc \notin Terminal /\ Rare(8)
   /\ pr' = [pr EXCEPT ![p].down = {k}]
   /\ toggles' = toggles + 1
   /\ Rec(H("fail", p, FALSE, k))
   /\ UNCHANGED <<now, files, skewU, waits, emitted>>
 
 Heal(p) ==
-  /\ pr[p].down # {}
+  /\ pr[p].down # {} /\ Rare(3)
   /\ pr' = [pr EXCEPT ![p].down = {}]
   /\ Rec(H("heal", p, FALSE, ""))
   /\ UNCHANGED <<now, files, skewU, toggles, waits, emitted>>
@@ -278,7 +282,7 @@ StaleRm ==
 
 \* somebody removes the lock files of a live holder (unlock --remove-all, rm on the storage): outside C12's premise
 Del(p) ==
-  /\ Removal /\ toggles < MaxToggle
+  /\ Removal /\ toggles < MaxToggle /\ Rare(10)
   /\ pr[p].pc \in HoldStates /\ \E f \in files : f.o = p
   /\ files' = {f \in files : f.o # p}
   /\ pr' = [pr EXCEPT ![p].robbed = TRUE]
@@ -318,12 +322,11 @@ StallOk(r) == r.pc \in OpStates => r.used + (now + 1 - r.since) <= Budget
 
 Tick ==
   /\ now < MaxTime
-  /\ \A p \in Procs : StallOk(pr[p]) /\ ~RefreshDue(pr[p], Local(p)) /\ ~MonitorDue(pr[p], Local(p))
+  /\ \A p \in Procs : StallOk(pr[p]) /\ ~TimerDue(pr[p], Local(p))    \* sleeps and retry delays are short
   /\ now' = now + 1
   /\ waits' = 0
-  /\ pr' = [p \in Procs |-> IF Sleeping(pr[p]) THEN Norm(Fire(pr[p], Local(p) + 1, now + 1)) ELSE pr[p]]
   /\ Rec(H("tick", 0, FALSE, ""))
-  /\ UNCHANGED <<files, skewU, toggles, emitted>>
+  /\ UNCHANGED <<files, pr, skewU, toggles, emitted>>
 
 ProcStep(p) ==
   \/ \E x \in BOOLEAN : Start(p, x)
@@ -344,7 +347,7 @@ Done ==
 Act == (\E p \in Procs : ProcStep(p)) \/ StaleRm \/ Wait \/ Tick
 Next ==
   \/ Busy /\ Act
-  \/ Emit /\ (Len(hist) >= HistMax \/ ~ENABLED Act) /\ Done
+  \/ Emit /\ (Len(hist) >= HistMax \/ now >= MaxTime \/ \A p \in Procs : pr[p].pc \in Terminal) /\ Done
 
 Spec == Init /\ [][Next]_vars
 
@@ -361,12 +364,13 @@ ObsOf ==
   [now |-> now * UnitMs,
    f   |-> SetToSeq0({<<f.o, (f.t - pr[f.o].skew) * UnitMs, B2I(f.x)>> : f \in {g \in files : g.o \in Procs}}),
    p   |-> [p \in Procs |-> <<B2I(Believes(p)), B2I(pr[p].ctx), B2I(pr[p].x), B2I(pr[p].robbed),
-                              (pr[p].used + (IF pr[p].pc \in OpStates THEN now - pr[p].since ELSE 0)) * UnitMs, 0, 0>>],
+                              (pr[p].used + (IF pr[p].pc \in OpStates THEN now - pr[p].since ELSE 0)) * UnitMs, 0, 0,
+                              pr[p].newest * UnitMs>>],
    r   |-> SetToSeq0({<<f.t * UnitMs, B2I(f.x)>> : f \in {g \in files : g.o = 0}})]
 
 InvExclusion     == Exclusion(ObsOf)
 InvHolderHasFile == HolderHasFile(ObsOf)
-InvFresh         == FreshWhileActive(ObsOf)
+InvFresh         == FreshWithin(ObsOf, UnitMs)     \* one unit: times are rounded to units in this model
 
 \* nobody whose clock agrees within MaxSkew can judge the lock of an active holder stale
 InvNotStale ==
